@@ -167,7 +167,8 @@ package apd
 //@   pure
 //@   ensures ret == sgn(val(x))
 //@ func math/big.(*Int).Bit
-//@   trusted math/big documented semantics (bit 0 is the parity, also in two's complement)
+//@   trusted math/big documented semantics (bit 0 is the parity, also in two's complement; panics for a negative index)
+//@   requires i >= 0
 //@   pure
 //@   ensures (ret == 0 || ret == 1) && (i == 0 ==> ret == mod(val(x), 2))
 //@ func math/big.(*Int).BitLen
@@ -310,7 +311,7 @@ package apd
 //@ func (*BigInt).Bit
 //@   layer bigint
 //@   props C16
-//@   requires rep(z)
+//@   requires rep(z) && i >= 0
 //@   pure
 //@   ensures (ret == 0 || ret == 1) && (i == 0 ==> ret == mod(val(z), 2))
 
@@ -433,12 +434,14 @@ package apd
 //@ func setBigWithPow
 //@   props C01 C19
 //@   requires pow >= 0 && writable(res)
+//@   sample pow <= 5000
 //@   assigns res
 //@   ensures val(res) == pow10(pow)
 
 //@ func tableExp10
 //@   props C01 C19 C06
 //@   requires x >= 0 && writable(tmp)
+//@   sample x <= 5000
 //@   assigns tmp
 //@   ensures val(ret) == pow10(x) && (ret == tmp || isglobal(ret)) && ret != nil
 
@@ -1753,6 +1756,7 @@ package apd
 //@   layer bigint
 //@   props C16
 //@   requires writable(z) && rep(z)
+//@   sample y - x <= 3000 || y <= 0
 //@   assigns z
 //@   allocates
 //@   ensures val(z) == uf_mulrange(x, y) && ret == z && rep(z)
@@ -1764,6 +1768,7 @@ package apd
 //@   layer bigint
 //@   props C16
 //@   requires writable(z) && rep(z)
+//@   sample n <= 3000
 //@   assigns z
 //@   allocates
 //@   ensures val(z) == uf_binomial(n, k) && ret == z && rep(z)
@@ -1872,6 +1877,10 @@ package apd
 //@   allocates
 //@   ensures (ret == nil || ret == z) && (ret == nil ==> val(z) == old(val(z))) && (ret == z ==> val(z) == uf_modinv(old(val(g)), old(val(n)))) && rep(z)
 //@ define l1 nb(p: *big.Int, q: *big.Int): bool = p == q || backing(p) == 0 || backing(p) != backing(q)
+//@ func math/big.(*Int).SetUint64
+//@   trusted math/big documented semantics
+//@   assigns *z
+//@   ensures val(z) == x && ret == z
 //@ func math/big.(*Int).GCD
 //@   trusted math/big (z = gcd(a, b) >= 0 for operands of any sign; Bezout coefficients when x, y are given; an output may be an input itself but not a different header over an input's words)
 //@   nilable x, y
